@@ -199,4 +199,4 @@ Example example_codec :
   decode_int (mk_ity false W8) [45; 49] = Reject /\
   encode_int (mk_ity false W64) 18446744073709551615 10 true =
     Ok [49;56;95;52;52;54;95;55;52;52;95;48;55;51;95;55;48;57;95;53;53;49;95;54;49;53].
-Proof. vm_compute. repeat split. Qed.
+Proof. exact ex_codec. Qed.
